@@ -46,6 +46,8 @@ PLAN = {
     "C01": (["default", "compact", "radix+format", "compact+radix+format"], ["pow2", "format", "radix", "compact+radix", "nostd"]),
     "C02": (["default", "compact", "radix+format"], ["pow2", "format", "radix", "compact+radix+format", "nostd"]),
     "C03": (["default", "compact", "pow2", "radix", "compact+radix", "radix+format"], ["compact+radix+format", "nostd"]),
+    "C05": (["pow2", "radix", "compact+radix", "radix+format"], ["compact+radix+format", "compact+pow2", "pow2+format"]),
+    "C19": (["default", "compact", "radix", "compact+radix+format"], ["pow2", "format", "compact+radix", "radix+format"]),
     "C04": (["default", "compact", "pow2", "radix", "radix+format"], ["compact+radix", "compact+radix+format", "format"]),
 }
 
